@@ -289,9 +289,28 @@ func (ev *Evaluator) runInstrs(b *ssa.BasicBlock, start int, env *evalEnv) {
 			// boxing a concrete value never yields a nil interface
 			env.vals[x] = EVal{K: EPtr, Tok: x}
 		case *ssa.Call:
+			handled := false
 			if ev.Call != nil {
 				if v, ok := ev.Call(x, get); ok {
 					env.vals[x] = v
+					handled = true
+				}
+			}
+			if bi, isB := x.Call.Value.(*ssa.Builtin); isB && !handled && (bi.Name() == "max" || bi.Name() == "min") && len(x.Call.Args) >= 1 {
+				all := true
+				var best int64
+				for i, a := range x.Call.Args {
+					av := get(a)
+					if av.K != EInt {
+						all = false
+						break
+					}
+					if i == 0 || (bi.Name() == "max" && av.I > best) || (bi.Name() == "min" && av.I < best) {
+						best = av.I
+					}
+				}
+				if all {
+					env.vals[x] = EVal{K: EInt, I: best}
 				}
 			}
 		case *ssa.Select:
